@@ -6,7 +6,7 @@ CONSTANTS RF1 = {1, 2, 3, 4, 5}
           RF2 = {2}
           N2 = 3
           Outcomes = {"ok", "conflict", "unavailable", "other", "noconn", "notready"}
-          Outcomes2 = {"ok", "conflict", "unavailable", "other", "noconn", "notready"}
+          Outcomes2 = {"ok", "conflict", "unavailable", "other", "noconn"}
           ReplThresholdIsQuorum = FALSE
           WithTimeout = TRUE
           CaseRF1 = {1, 2, 3, 4, 5}
